@@ -586,6 +586,11 @@ func randomDataOp(r *rand.Rand, pid uint16, auto bool, slot int, o HistOpts) HOp
 			copy(d.PES.Data, gen.Tag(pid, r.IntN(1<<20)))
 		}
 	}
+	if af := d.AdaptationField; o.OddPrivateData && af != nil && !af.IsOneByteStuffing && shared == 0 && r.IntN(5) == 0 {
+		// a unit that announces a discontinuity (of the time base, say): the Muxer numbers its packets like any others. Only for
+		// the histories that are judged on the wire (a Demuxer drops the unit in front of such a packet: known finding D38)
+		af.DiscontinuityIndicator = true
+	}
 	return HOp{Kind: "data", PID: pid, Auto: auto, Slot: slot, Data: d, SharedAF: shared}
 }
 
